@@ -442,6 +442,14 @@ func runC16(c *Ctx) {
 			lp = l
 		}
 		if lp == nil {
+			// the loop over the entries in a literal called on the spot (a helper folded into a composite literal)
+			for _, af := range rr.AnonFuncs {
+				for _, l := range loopsOf(af) {
+					lp = l
+				}
+			}
+		}
+		if lp == nil {
 			c.bad("R3", "one entry per dirent", p.Pos(rr.Pos()), "no loop over the directory entries")
 		} else {
 			mn, mx, okc := countLoopIter(lp, func(in ssa.Instruction) bool {
@@ -460,6 +468,13 @@ func runC16(c *Ctx) {
 						if b, ok := rr2.(*ssa.BinOp); ok && b.Op == token.NEQ {
 							tested = true
 						}
+						if phi, ok := rr2.(*ssa.Phi); ok {
+							for _, r3 := range *phi.Referrers() {
+								if b, ok := r3.(*ssa.BinOp); ok && (b.Op == token.NEQ || b.Op == token.EQL) {
+									tested = true
+								}
+							}
+						}
 					}
 				}
 			}
@@ -470,10 +485,18 @@ func runC16(c *Ctx) {
 					if !ok || ex.Index != 1 {
 						continue
 					}
-					if len(nilTests(ex)) == 0 {
+					// the error is tested itself, or through the join it reaches the test by (the lookup's own
+					// failure joins in when the lookup and the read are one inlined stage)
+					tests := nilTests(ex)
+					for _, r2 := range *ex.Referrers() {
+						if phi, ok := r2.(*ssa.Phi); ok {
+							tests = append(tests, nilTests(phi)...)
+						}
+					}
+					if len(tests) == 0 {
 						tested = false // compared, but nothing branches on the comparison
 					}
-					for _, t := range nilTests(ex) {
+					for _, t := range tests {
 						if reachFromNilSide(t, true, func(in ssa.Instruction) bool {
 							// the NAME reply is not begun once the error is known
 							a, ok := in.(*ssa.Alloc)
